@@ -39,7 +39,7 @@ def lbl(t, cond=False, direct=True):
     return gtirb.Edge.Label(type=t, conditional=cond, direct=direct)
 
 
-def h_retarget(eng, fmt, pie, a_int, b_int, request):
+def h_retarget(eng, fmt, pie, a_int, b_int, request, reverse=False, return_edges=True):
     from gtirb_rewriting import RewritingContext, _auxdata, _auxdata_offsetmap
     import gtirb_functions
 
@@ -191,7 +191,8 @@ def h_retarget(eng, fmt, pie, a_int, b_int, request):
         use("w_call", bi, blk["v_next"].offset, "data", "B", 0, b_int) if False else None
         dbi.symbolic_expressions[24] = gtirb.SymAddrConst(7, B, set())
         uses["w_data"] = (dbi, 24, "data", "B", 7, dbi.symbolic_expressions[24])
-    for old, new in mapping.items():
+    # requests for different symbols: the order of registration must not matter (C11)
+    for old, new in (reversed(list(mapping.items())) if reverse else mapping.items()):
         ctx.retarget_symbol_uses(syms[old], syms[new])
     shift = 0
     if request == "with_insert":
@@ -242,6 +243,8 @@ def h_retarget(eng, fmt, pie, a_int, b_int, request):
     other_before = {(s, t, ty) for (s, t, ty) in edges_before if ty in (ET.Fallthrough,)}
     eng.check(other_before <= {(e.source, e.target, e.label.type) for e in cfg} or request == "with_insert",
               "fallthrough edges were changed by retargeting")
+    if not return_edges:
+        return  # C11 reuses these assertions for registration orders; the return-edge clause is C18's (known finding there)
     # return edges follow the calls
     new_callee = syms[mapping["A"]]
     if isinstance(new_callee.referent, gtirb.CodeBlock):
